@@ -288,7 +288,12 @@ static Value<Ch> rnd_tree(vf::Rng &rng, int depth) {
             static const unsigned U8[] = {0, 1, 8, 9, 10, 12, 13, 0x1F, 0x22, 0x5C, 0x2F, 0x7F, 0x41, 0x7A, 0x20};
             for (int i = 0; i < n; ++i) {
                 unsigned c = rng.below(2) ? (unsigned)('a' + rng.below(26)) : (rng.below(2) ? U8[rng.below(15)] : rng.below(0x21));   // every control character 0x00..0x1F, space
-                if (sizeof(Ch) > 1 && rng.below(6) == 0) c = rng.below(2) ? 0x20AC : 0xE9;
+                if (sizeof(Ch) > 1 && rng.below(5) == 0) {
+                    // wide units, among them units whose LOW BYTE is a control character, a quote or a backslash
+                    static const unsigned W[] = {0x20AC, 0xE9, 0x041F, 0x4E00, 0x0100, 0x4E09, 0x0122, 0x015C, 0x010A, 0x011F, 0xFF0D, 0xD7FF, 0xE000, 0xFFFD};
+                    c = W[rng.below(14)];
+                    if (sizeof(Ch) == 4 && rng.below(3) == 0) c = rng.below(2) ? 0x1F600 : 0x10009;
+                }
                 s.push_back((Ch)c);
             }
             v = String<Ch>((const Ch *)s.data(), (SizeT)s.size());
@@ -312,6 +317,7 @@ static Value<Ch> rnd_tree(vf::Rng &rng, int depth) {
                 const char *k = K[rng.below(10)];
                 std::basic_string<Ch> ks;
                 for (const char *p = k; *p; ++p) ks.push_back((Ch)(unsigned char)*p);
+                if (sizeof(Ch) > 1 && rng.below(5) == 0) ks.push_back((Ch)(rng.below(2) ? 0x041F : 0x4E22));   // wide key units with a control / quote low byte
                 if (rng.below(6) == 0) v[String<Ch>((const Ch *)ks.data(), (SizeT)ks.size())].SetPointerToValue(pointee<Ch>(rng));
                 else v[String<Ch>((const Ch *)ks.data(), (SizeT)ks.size())] = rnd_tree<Ch>(rng, depth - 1);
             }
